@@ -21,7 +21,7 @@ def dy(rng, lo, hi, step):
 
 class WorldGen:
     def __init__(self, rng, spherical=None, allow=None, max_features=4, with_surfaces=True, with_random=False,
-                 with_cross=None, with_lines=False, schema=None, focus=()):
+                 with_cross=None, with_lines=False, schema=None, focus=(), slab_models=0.0, slab_ub=False):
         self.rng = rng
         self.schema = schema
         self._alts = []
@@ -34,6 +34,13 @@ class WorldGen:
         self.with_random = with_random
         self.with_cross = rng.random() < 0.5 if with_cross is None else with_cross
         self.with_lines = with_lines
+        # probability that a slab temperature model is one of the slab-only models (`plate model`, `mass conserving`);
+        # 0 keeps the generator's output for the older runs unchanged.  `slab_ub`: also produce the combinations on which the
+        # library reads `ridge_migration_times` past its end (per-point subducting velocities with fewer spreading-velocity
+        # items than ridges) and unknown `reference model name`s (enum left uninitialised).
+        self.slab_models = slab_models
+        self.slab_ub = slab_ub
+        self._line_geom = None
         # names of model families to be chosen more often than by default ("tian": water content, "line random": random grains of slabs / faults)
         self.focus = set(focus)
         self.meta = {"spherical": self.spherical, "features": [], "models": [], "ops": [], "surfaces": 0, "omitted": 0}
@@ -356,6 +363,120 @@ class WorldGen:
 
 
     # ---- line features ---------------------------------------------------------------
+    def slab_ridges(self):
+        """ridges on the incoming-plate side of the current slab (opposite to the dip point), roughly parallel to the trench,
+        one or two ridges offset by a transform fault"""
+        r = self.rng
+        c, rad, ux, uy, side, tx, ty = self._line_geom
+        st = self.step()
+        nr = r.choice([1, 1, 2])
+        dist = rad * (r.uniform(1.5, 4) if self.spherical else r.uniform(3, 12))
+        u = r.random()
+        if u < 0.08:
+            dist = -dist * 0.5                     # ridge on the overriding side
+        elif u < 0.2:
+            # a ridge at the trench: very young plate, so that the high-order terms of the plate-model series do not underflow
+            dist = rad * (r.uniform(0, 0.02) if self.spherical else r.uniform(0, 0.1))
+        half = rad * r.uniform(1.2, 3)
+        ridges = []
+        k = 0
+        npts_list = [r.choice([2, 2, 3]) for _ in range(nr)]
+        total = sum(npts_list)
+        for i in range(nr):
+            pts = []
+            off = dist + i * rad * r.uniform(-0.6, 0.6)
+            for j in range(npts_list[i]):
+                t = -half + 2 * half * (k + (0.15 if j == 0 and i > 0 else 0)) / max(1, total - 1)
+                k += 1
+                x = c[0] - side * ux * off + tx * t + r.uniform(-0.05, 0.05) * rad
+                y = c[1] - side * uy * off + ty * t + r.uniform(-0.05, 0.05) * rad
+                p = [round(x / st) * st, round(y / st) * st]
+                if self.spherical:
+                    p = [max(-359, min(359, p[0])), max(-85, min(85, p[1]))]
+                pts.append([int(v) if float(v).is_integer() else v for v in p])
+            # a ridge needs two different points
+            if pts[0] == pts[-1]:
+                pts[-1] = [pts[-1][0] + st, pts[-1][1]]
+            ridges.append(pts)
+        return ridges
+
+    def slab_plate_model(self, rng_keys):
+        r = self.rng
+        m = {"model": "plate model", "plate velocity": r.choice([0.01, 0.05, 0.1, 0.02, 0.05, 0.08, 0])}
+        self.maybe(m, "min distance slab top", r.choice([0, 0, 5e3, -10e3]), 0.4)
+        self.maybe(m, "max distance slab top", r.choice([50e3, 100e3, 150e3, 200e3]), 0.6)
+        self.op(m)
+        self.maybe(m, "density", r.choice([3300, 3000, 3400.5]), 0.4)
+        self.maybe(m, "thermal conductivity", r.choice([2, 2.5, 3.3]), 0.4)
+        self.maybe(m, "thermal expansion coefficient", r.choice([-1, 3e-5, 2.5e-5]), 0.4)
+        self.maybe(m, "specific heat", r.choice([-1, 1000, 1250]), 0.4)
+        self.maybe(m, "adiabatic heating", r.random() < 0.5, 0.5)
+        self.maybe(m, "potential mantle temperature", r.choice([-1, 1500, 1650]), 0.4)
+        return m
+
+    def slab_mass_conserving(self):
+        r = self.rng
+        m = {"model": "mass conserving"}
+        ridges = self.slab_ridges()
+        m["ridge coordinates"] = ridges
+        nr = len(ridges)
+        vel = lambda: r.choice([0.05, 0.025, 0.1, 0.01, 0.08])
+        # spreading velocity: a number, one item with all ridges, or one item per ridge
+        form = r.choice(["scalar", "scalar", "one-item", "per-ridge", "per-ridge"])
+        per_point_sub = r.random() < 0.3
+        if per_point_sub and nr > 1 and not self.slab_ub:
+            form = "per-ridge"                     # `ridge_migration_times[relevant_ridge]` must exist
+        if form == "scalar":
+            v0 = vel()
+            m["spreading velocity"] = v0
+            table = [[v0 for _ in rg] for rg in ridges]
+        else:
+            if r.random() < 0.5:
+                v0 = vel()
+                table = [[v0 for _ in rg] for rg in ridges]
+            else:
+                table = [[vel() for _ in rg] for rg in ridges]
+            if form == "one-item":
+                m["spreading velocity"] = [[r.choice([0, 1e6]), table]]
+            else:
+                m["spreading velocity"] = [[r.choice([0, 1e6, 5e6]), [row]] for row in table]
+        u = r.random()
+        if per_point_sub:
+            sub = [list(row) for row in table]
+            if u < 0.015:
+                sub[-1] = sub[-1] + [sub[-1][-1]]                  # wrong dimension: refused
+            elif u < 0.03:
+                sub[0][0] = sub[0][0] * 2                       # not approx equal: refused
+            m["subducting velocity"] = sub
+        elif u < 0.6:
+            m["subducting velocity"] = table[0][0] if r.random() < 0.8 else [[table[0][0]]]
+        elif u < 0.9:
+            m["subducting velocity"] = vel()
+        elif u < 0.95:
+            m["subducting velocity"] = [[vel()] for _ in ridges]     # first entries of length 1: treated as one value
+        else:
+            m["subducting velocity"] = r.choice([0, -0.05])
+        if r.random() < 0.015:
+            m["spreading velocity"] = [[0, [[0.05, 0.05, 0.05, 0.05, 0.05, 0.05, 0.05]]]]     # wrong number of values: refused
+        self.maybe(m, "min distance slab top", r.choice([-200e3, -100e3, -50e3, 0, -10e3, -250e3]), 0.8)
+        self.maybe(m, "max distance slab top", r.choice([100e3, 150e3, 200e3, 300e3, 50e3]), 0.85)
+        self.op(m)
+        self.maybe(m, "density", r.choice([3300, 3000, 3400.5]), 0.4)
+        self.maybe(m, "thermal conductivity", r.choice([3.3, 2.5, 4]), 0.4)
+        self.maybe(m, "coupling depth", r.choice([100e3, 80e3, 50e3, 150e3, 0]), 0.5)
+        self.maybe(m, "forearc cooling factor", r.choice([1, 5, 10, 20, 0.5]), 0.5)
+        self.maybe(m, "taper distance", r.choice([100e3, 50e3, 200e3, 0]), 0.5)
+        self.maybe(m, "thermal expansion coefficient", r.choice([-1, 3e-5, 2.5e-5]), 0.4)
+        self.maybe(m, "specific heat", r.choice([-1, 1000, 1250]), 0.4)
+        self.maybe(m, "thermal diffusivity", r.choice([-1, 1e-6, 8e-7]), 0.4)
+        self.maybe(m, "adiabatic heating", r.random() < 0.5, 0.5)
+        self.maybe(m, "potential mantle temperature", r.choice([-1, 1500, 1650]), 0.4)
+        names = ["half space model", "plate model"] + (["other model"] if self.slab_ub else [])
+        self.maybe(m, "reference model name", r.choice(names), 0.7)
+        self.maybe(m, "apply spline", r.random() < 0.6, 0.7)
+        self.maybe(m, "number of points in spline", r.choice([1, 2, 3, 5, 8, 5, 0] if r.random() < 0.2 else [1, 2, 3, 5, 8]), 0.6)
+        return m
+
     def line_models(self, kind, level):
         """model lists for a slab / fault at one level (feature, section or segment); keys omitted at random"""
         r = self.rng
@@ -369,6 +490,11 @@ class WorldGen:
         if r.random() < 0.6:
             ms = []
             for _ in range(r.choice([1, 1, 2])):
+                if not fault and self.slab_models and self._line_geom is not None and r.random() < self.slab_models:
+                    name = r.choice(["plate model", "mass conserving", "mass conserving"])
+                    self.meta["models"].append(kind + "/T/" + name)
+                    ms.append(self.slab_plate_model(rng_keys) if name == "plate model" else self.slab_mass_conserving())
+                    continue
                 name = r.choice(["uniform", "linear", "adiabatic"])
                 m = {"model": name}
                 self.meta["models"].append(kind + "/T/" + name)
@@ -504,6 +630,8 @@ class WorldGen:
         dip = [round((c[0] + side * rad * nx / nn) / st) * st, round((c[1] + side * rad * ny / nn) / st) * st]
         dip = [int(v) if float(v).is_integer() else v for v in dip]
         f = {"model": kind, "coordinates": pts, "dip point": dip}
+        tl = math.hypot(pts[-1][0] - pts[0][0], pts[-1][1] - pts[0][1]) or 1.0
+        self._line_geom = (c, rad, nx / nn, ny / nn, side, (pts[-1][0] - pts[0][0]) / tl, (pts[-1][1] - pts[0][1]) / tl)
         self.maybe(f, "name", "l%d" % len(self.meta["features"]), 0.9)
         self.maybe(f, "tag", r.choice(["", "slab", kind]), 0.3)
         self.maybe(f, "min depth", r.choice([0, 0, 10e3, 50e3]), 0.4)
@@ -571,7 +699,7 @@ class WorldGen:
             w["coordinate system"] = {"model": "cartesian"}
         if r.random() < 0.3:
             w["gravity model"] = {"model": "uniform", "magnitude": r.choice([9.81, 10, 1.5])}
-        self.maybe(w, "potential mantle temperature", r.choice([1600, 1500, 1700.5]), 0.3)
+        self.maybe(w, "potential mantle temperature", r.choice([1600, 1500, 1700.5] + ([-1] if self.slab_models else [])), 0.3)
         self.maybe(w, "surface temperature", r.choice([293.15, 273, 300]), 0.3)
         self.maybe(w, "force surface temperature", r.random() < 0.7, 0.3)
         self.maybe(w, "thermal expansion coefficient", r.choice([3.5e-5, 3e-5, 2e-5]), 0.3)
@@ -712,12 +840,54 @@ class WorldGen:
             return [cl * math.cos(lon), cl * math.sin(lon), rr * math.cos(0.5 * math.pi - lat)]
         return [sp[0], sp[1], surface_level - depth]
 
+    def slab_query(self, f):
+        """(surface position, depth) aimed at the body of the slab `f`: a place along the trench, a distance along the
+        (straightened) segments, an offset across the slab.  Approximate on purpose; it only has to land inside often."""
+        r = self.rng
+        cs = f["coordinates"]
+        i = r.randrange(len(cs) - 1)
+        p, q = cs[i], cs[i + 1]
+        t = r.choice([0, 1, 0.5, r.random(), r.random()])
+        m = [p[0] + t * (q[0] - p[0]), p[1] + t * (q[1] - p[1])]
+        dp = f["dip point"]
+        nx, ny = -(q[1] - p[1]), (q[0] - p[0])
+        nn = math.hypot(nx, ny) or 1.0
+        nx, ny = nx / nn, ny / nn
+        if nx * (dp[0] - m[0]) + ny * (dp[1] - m[1]) < 0:
+            nx, ny = -nx, -ny
+        segs = f["segments"]
+        total = sum(sg["length"] for sg in segs)
+        a = r.choice([0, total, r.uniform(0, total), r.uniform(0, total), r.uniform(0, 1.05 * total)])
+        x = z = 0.0
+        ang = 0.0
+        for sg in segs:
+            an = sg["angle"]
+            ang = math.radians(sum(an) / len(an))
+            l = min(a, sg["length"])
+            x += l * math.cos(ang); z += l * math.sin(ang)
+            a -= l
+            if a <= 0:
+                break
+        d = r.choice([0, r.uniform(-120e3, 0), r.uniform(-280e3, -100e3), r.uniform(0, 30e3), r.uniform(0, 160e3), r.uniform(0, 160e3)])
+        x -= d * math.sin(ang); z += d * math.cos(ang)
+        if self.spherical:
+            x = x / (self.radius * math.pi / 180.0)
+        sp = [m[0] + nx * x, m[1] + ny * x]
+        if self.spherical:
+            sp = [max(-359.5, min(359.5, sp[0])), max(-89.5, min(89.5, sp[1]))]
+        return sp, f.get("min depth", 0) + z
+
     def queries(self, world, n):
         r = self.rng
         pos = self.surface_positions(world)
         ds = self.depths_of_interest(world)
         out = []
+        slabs = [f for f in world["features"] if f["model"] == "subducting plate"] if self.slab_models else []
         for _ in range(n):
+            if slabs and r.random() < 0.5:
+                sp, d = self.slab_query(r.choice(slabs))
+                out.append((self.point3(sp, d), float(d)))
+                continue
             sp = r.choice(pos)
             d = r.choice(ds) if r.random() < 0.7 else r.uniform(-10e3, 700e3)
             out.append((self.point3(sp, d), float(d)))
@@ -757,4 +927,6 @@ class WorldGen:
                 out.append((4, 0, 0))
             else:
                 out.append((5, 0, 0))
+        if self.slab_models and r.random() < 0.6 and (1, 0, 0) not in out:
+            out.insert(r.randrange(len(out) + 1), (1, 0, 0))      # the slab-only models are temperature models
         return out
